@@ -237,6 +237,13 @@ def check(an: Analysis) -> None:
             w = gf.ordered(lambda n: n in stores, lambda n: n in fails)
             if w is not None:
                 ob.fail(fin, fails[0].ast, "the receiver is woken before the reason is stored", CFG.show_path(w))
+    isf = prog.fn(f"{Q}.is_finished")
+    for r in [r for r in isf.own_nodes() if isinstance(r, ast.Return)]:
+        ob.inst(isf, r)
+        v = r.value
+        ok = isinstance(v, ast.Compare) and len(v.ops) == 1 and isinstance(v.ops[0], ast.IsNot) and dotted(v.left) == "self._finish_reason" and isinstance(v.comparators[0], ast.Constant) and v.comparators[0].value is None
+        if not ok:
+            ob.fail(isf, r, "is_finished is not `self._finish_reason is not None`: the guards of enqueue/finish no longer mean 'finish was called' (e.g. 'finished and drained' lets a finished queue accept elements and change its reason while buffered elements remain)")
     cancel = prog.fn(f"{Q}.cancel")
     cc = [c for c in cancel.own_nodes() if isinstance(c, ast.Call) and an.callee(cancel, c) == fin.qualname]
     if not cc:
